@@ -7,6 +7,7 @@
    Executable definitions only; proofs in proofs/WaitsProofs.v (section Blockdep).
    Python ints are Z; // and % are Z.div / Z.modulo. AssertionError = None. *)
 From Coq Require Import ZArith List Bool.
+From VV Require Import model.RangeSet.
 Import ListNotations.
 Open Scope Z_scope.
 
@@ -249,6 +250,24 @@ Definition calc_blockdep (ar : archp) (prev : option prevop) (c : curop) : optio
           | Some ibd => Some (blockdep_core ar p c (if ifm_ov then co_ifm c else co_ifm2 c) ibd)
           end
   end.
+
+(* ------------------------------------------------------------------ get_op_memory_accesses *)
+(* memory_range_set(range) = MemoryRangeSet(region, address, address + length); res.add(..., direction) *)
+Definition add_arange (x : option maset) (o : option arange) (w : bool) : option maset :=
+  match x, o with
+  | None, _ => None
+  | Some m, None => Some m                      (* "if read_range is not None" *)
+  | Some m, Some (rg, a, l) =>
+      match mrs_new rg a (a + l) with Some s => Some (ma_add m s w) | None => None end
+  end.
+
+(* read_ranges = ranges(ifm) [+ ranges(ifm2)] + weights + biases [+ LUT] ; write_ranges = ranges(ofm) + [SHRAM];
+   the feature maps are given as lists, the plain ranges (weights, biases, LUT, SHRAM) as they are *)
+Definition op_accesses (read_fms : list fmap) (read_rs : list arange) (write_fms : list fmap) (write_rs : list arange)
+  : option maset :=
+  let reads := flat_map get_address_ranges read_fms ++ map Some read_rs in
+  let writes := flat_map get_address_ranges write_fms ++ map Some write_rs in
+  fold_left (fun x o => add_arange x o true) writes (fold_left (fun x o => add_arange x o false) reads (Some ma_empty)).
 
 (* ------------------------------------------------------------------ flat interface *)
 Definition parse_fm (l : list Z) : option (fmap * list Z) :=
